@@ -3,8 +3,11 @@ package props
 import (
 	"encoding/json"
 	"io"
+	"time"
 )
 
 func jsonUnmarshal(b []byte, v any) error { return json.Unmarshal(b, v) }
 
 func ioEOF() error { return io.EOF }
+
+type timeDuration = time.Duration
